@@ -12,7 +12,7 @@ RULE = ('lu and plu on: ALL 2x2 matrices with entries -3..3 (2401), 3x3 with ent
         'random n<=10 by class: dense floats, small integers, zero leading minor (a11=0, integer L*U with a zero pivot, dyadic row multiples '
         'inside a leading block), permutation-heavy (shuffled / cyclically shifted rows of a diagonally dominant matrix, scaled permutation '
         'matrices), rows scaled by 2^-30..2^30, rank-deficient (zero row, zero column, repeated row, scaled row, sum of rows, singular with '
-        'entries -2..2), exactly singular integer matrices with entries -2..2 and n>=4, 1x1 and 0x0; malformed: non-square h x w, ragged nested vectors.  Every case goes through every accepted container '
+        'entries -2..2), exactly singular integer matrices with entries -2..2 and n>=4, whole matrices scaled by 2^-60..2^60, 1x1 and 0x0; malformed: non-square h x w, ragged nested vectors.  Every case goes through every accepted container '
         'type that can hold its numbers (&Arr2D<f64>, Vec<Vec<f64>>, &Vec<Vec<f64>>, and for integers &Arr2D<i32>, &Vec<Vec<i32>>); the harness '
         'reports any difference between them.  distinct = distinct case line; non-trivial = square with n >= 2')
 TRUSTED = ['extraction of the float instance (ExtrOcamlBasic, ExtrOCamlFloats, ExtrOCamlInt63) and ocaml/c09.ml',
@@ -21,13 +21,12 @@ TRUSTED = ['extraction of the float instance (ExtrOcamlBasic, ExtrOCamlFloats, E
 ASSUMPTIONS = ['theorems are about the R instance (exact arithmetic); finiteness, the n*eps*|L||U| bound and "well-scaled non-singular matrices '
                'are always factored" are rounding statements: measured by the oracle, not proved',
                'reconstruction envelope: |L^U^ - PA|_ij <= 2*n*eps*(|L^||U^|)_ij + n*2^-1000 (standard bound is gamma_n ~ n*eps/2)',
-               'must-factor (PLU): 1/(n*||A^-1||_inf) >= 2^-40 + n^3*2^n*eps*max|a| (then every exact pivot is >= sigma_min/sqrt(n), far above EPSILON); '
-               'must-factor (LU): the same for every leading block, relative to max(1, max(|L||U|)) of the exact factors with margin 2^-30',
+               'must-factor (PLU): 1/(n*||A^-1||_inf) >= 2*(n^3*2^n + 2n)*eps*max|a| (every exact pivot is >= sigma_min/sqrt(n) >= the left side, far above the '
+               'threshold eps*n*max|a| of the code plus the rounding perturbation; scale invariant, so it also covers matrices scaled by 2^-60 or 2^60); '
+               'must-factor (LU): the same for every leading block, relative to max(|L||U|) of the exact factors with margin 2^-30',
                'must-refuse (LU): an exact leading minor of order < n vanishes and the exact factors up to that pivot are dyadic with <= 20-bit '
                'numerators/denominators (then float arithmetic is exact and rounding cannot hide the zero pivot), or a[0][0] = 0; '
-               'must-refuse (PLU): a zero row, a zero column, two identical rows, or a singular matrix of the exhaustive small-integer domain (2x2 entries -3..3, 3x3 entries -2..2)',
-               'NOT demanded: refusal of exactly singular small-integer matrices with n >= 4 (class singint): rounding leaves a last pivot of a few 1e-16, above the absolute '
-               'EPSILON threshold of plu, and factors are returned (they still satisfy the L U = P A envelope); e.g. [[-1,2,-2,0],[0,2,0,-2],[1,-1,1,2],[1,1,1,0]]']
+               'must-refuse (PLU): a zero row, a zero column, two identical rows, or a singular integer matrix with entries in -2..2 of ANY size n <= 10 (2x2: -3..3)']
 PROFILES = {'quick': ['debug'], 'thorough': ['debug', 'release']}
 
 C_ENV = 2          # envelope constant c in c*n*eps*|L||U|
@@ -226,12 +225,10 @@ def must_refuse_plu(rows):
         if key in seen:
             return 'repeated row'
         seen.add(key)
-    # exhaustive small-integer domain of the quantifier (2x2 / 3x3): rounding cannot hide a zero determinant there.
-    # From n = 4 on it can (e.g. [[-1,2,-2,0],[0,2,0,-2],[1,-1,1,2],[1,1,1,0]] is factored with a last pivot of
-    # a few 1e-16): those inputs are judged by the general clauses only, see the report / ASSUMPTIONS.
-    if (n <= 2 and is_small_int_matrix(rows, 3)) or (n == 3 and is_small_int_matrix(rows, 2)):
+    # after the repair d0c7441 (threshold EPSILON * n * max|a_ij|) this holds for every n
+    if is_small_int_matrix(rows, 2) or (n <= 2 and is_small_int_matrix(rows, 3)):
         if det_int([[int(x) for x in r] for r in rows]) == 0:
-            return 'singular small-integer matrix (2x2 entries -3..3 / 3x3 entries -2..2)'
+            return 'singular matrix with entries in -2..2'
     return None
 
 
@@ -245,7 +242,7 @@ def must_factor_plu(rows):
         return False
     amax = max(abs(x) for r in F for x in r)
     s = 1 / (n * nv)
-    return s >= Fraction(1, 2 ** 40) + Fraction(n ** 3 * 2 ** n, 2 ** 52) * amax
+    return s >= 2 * Fraction(n ** 3 * 2 ** n + 2 * n, 2 ** 52) * amax
 
 
 def must_factor_lu(rows):
@@ -256,7 +253,7 @@ def must_factor_lu(rows):
     L, U, z = doolittle_exact(F)
     if z is not None:
         return False
-    g = Fraction(1)
+    g = Fraction(0)
     for i in range(n):
         for j in range(n):
             v = sum(abs(L[i][t]) * abs(U[t][j]) for t in range(n))
@@ -549,7 +546,8 @@ def singular_int(rng, n):
         c = rng.randrange(n)
         a, b = rng.sample([i for i in range(n) if i != c], 2)
         sg = rng.choice([1, -1])
-        row = [sg * (m[a][j] + rng.choice([1, -1]) * m[b][j]) for j in range(n)]
+        s2 = rng.choice([1, -1])
+        row = [sg * (m[a][j] + s2 * m[b][j]) for j in range(n)]
         if all(abs(x) <= 2 for x in row):
             m[c] = row
             return m
@@ -596,9 +594,14 @@ def gen(rng, tier):
     for _ in range(60 * k):
         n = rng.randint(2, 10)
         yield from both(diag_dominant(rng, n), 'diagdom')
-    for _ in range(120 * k):
+    for _ in range(240 * k):
         n = rng.randint(4, 10)
         yield from both(singular_int(rng, n), 'singint')
+    for _ in range(120 * k):
+        n = rng.randint(1, 10)
+        m = diag_dominant(rng, n) if rng.random() < 0.4 else rnd_dense(rng, n)
+        sc = 2.0 ** rng.choice([-60, 60, -40, 40, rng.randint(-60, 60)])
+        yield from both([[x * sc for x in r] for r in m], 'scaled')
     # malformed: non-square rectangles
     shapes = [(0, 1), (0, 3), (1, 0), (3, 0), (1, 2), (2, 1), (2, 3), (3, 2), (1, 5), (5, 1), (4, 3), (3, 4), (10, 9), (9, 10), (2, 10)]
     for (h, w) in shapes * (1 if quick else 5):
